@@ -163,6 +163,8 @@ def klass(m, k):
 
 class C13(System):
     nontrivial_per_config = False
+    #: canon() holds the complete concrete state and the whole model; a config only selects the initial objects
+    merge_across_configs = True
 
     def __init__(self, name, templates, depth_q, depth_t, ops=('copy', 'proxy', 'flow_proxy', 'copy_like', 'link', 'unlink', 'mutate'),
                  pairs='ordered', pickle_depth=1, link_flags=None, tcap_q=None, tcap_t=None, copy_like_pairs=None):
